@@ -376,7 +376,7 @@ class Qcow2VmdkStreamSuite(Suite):
         n = 80 if tier == "thorough" else 8
         out = []
         tries = 0
-        while len(out) < n and tries < 2000:
+        while len(out) < n and tries < 6000:
             tries += 1
             if self.fmt == "qcow2":
                 c = c01.gen_case(rng, "quick")
@@ -384,6 +384,15 @@ class Qcow2VmdkStreamSuite(Suite):
             else:
                 c = c02.gen_case(rng, "quick")
                 size = (c["capacity"] * 512) if c["kind"] != "flat" else c["fsize"] // 512 * 512
+                # the first two images of every suite are stream-optimised (compressed grains): two such extents alive in
+                # one process must not see each other's grains
+                if len(out) < 2 and not (c["kind"] != "flat" and c["flags"] & c02.F_COMPRESSED):
+                    continue
+                if len(out) == 1:
+                    # ... and the second one has the layout of the first (same grain sectors) with other content
+                    c = copy.deepcopy(out[0]["img"])
+                    c["salt"] = (c["salt"] ^ 0x5A5A5A) & ((1 << 30) - 1)
+                    size = c["capacity"] * 512
             if size > 3 * (1 << 20) or size <= 0:
                 continue
             c = copy.deepcopy(c)
